@@ -13,7 +13,7 @@ struct GroupScenario : Scenario {
     Plan generate(uint64_t seed, const std::map<std::string, int64_t>&) override {
         Rng r(seed); Plan p; p.scenario = name(); int n = r.range(6, 40);
         for (int i = 0; i < n; i++) { std::vector<uint8_t> k(32); r.fill(k.data(), 32); if (r.chance(1, 6)) memset(k.data(), r.chance(1, 2) ? 0 : 0xFF, 32); if (r.chance(1, 8)) { memset(k.data(), 0, 32); k[0] = (uint8_t) r.below(3); }
-            p.ops.push_back({"G", {(int64_t) r.below(27), (int64_t) r.below(8), (int64_t) r.below(8)}, {hex(k.data(), 32)}}); }
+            p.ops.push_back({"G", {(int64_t) r.below(28), (int64_t) r.below(8), (int64_t) r.below(8)}, {hex(k.data(), 32)}}); }
         return p;
     }
     void run(const Plan& plan, RunEnv& env) override {
@@ -22,7 +22,7 @@ struct GroupScenario : Scenario {
         for (int i = 0; i < 8; i++) { R.jv_const_get(JV_EK_G1, i % 3 != 0, p1[(size_t) i].b); R.jv_const_get(JV_EK_G2, i % 3 != 1, p2[(size_t) i].b); R.jv_const_get(JV_EK_GT, i % 2, t[(size_t) i].b); }
         Buf a1(R.sz(JV_SZ_G1A)), a2(R.sz(JV_SZ_G2A)), b1(R.sz(JV_SZ_G1A)), b2(R.sz(JV_SZ_G2A));
         for (size_t oi = 0; oi < plan.ops.size(); oi++) {
-            const Op& op = plan.ops[oi]; env.step = (int) oi; int k = (int) op.arg(0) % 27; size_t x = (size_t) op.arg(1) % 8, y = (size_t) op.arg(2) % 8;
+            const Op& op = plan.ops[oi]; env.step = (int) oi; int k = (int) op.arg(0) % 28; size_t x = (size_t) op.arg(1) % 8, y = (size_t) op.arg(2) % 8;
             std::vector<uint8_t> sc = unhex(op.s.empty() ? "" : op.s[0]); sc.resize(32); env.lib_calls++;
             std::string out; int flag = -1;
             switch (k) {
@@ -56,6 +56,12 @@ struct GroupScenario : Scenario {
             case 24: { R.jv_g1affine_from_projective(v, a1, p1[y].b); memcpy(b1.p, a1.p, a1.n); uint8_t c[97]; R.jv_g1a_canon(c, a1); if (c[0] == 0) b1.p[(sc[0] % 2) * 48 + sc[1] % 47] ^= (uint8_t) (1u << (sc[2] & 7)); flag = R.jv_g1affine_equal(v, a1, b1); G1v q; memcpy(q.b, p1[y].b, sizeof(q.b)); q.b[(sc[3] % 2) * 48 + sc[4] % 47] ^= (uint8_t) (1u << (sc[5] & 7)); flag = flag * 2 + R.jv_g1_equal(v, p1[y].b, q.b); break; }
             case 25: { R.jv_g2affine_from_projective(v, a2, p2[y].b); memcpy(b2.p, a2.p, a2.n); uint8_t c[193]; R.jv_g2a_canon(c, a2); if (c[0] == 0) b2.p[(sc[0] % 4) * 48 + sc[1] % 47] ^= (uint8_t) (1u << (sc[2] & 7)); flag = R.jv_g2affine_equal(v, a2, b2); G2v q; memcpy(q.b, p2[y].b, sizeof(q.b)); q.b[(sc[3] % 4) * 48 + sc[4] % 47] ^= (uint8_t) (1u << (sc[5] & 7)); flag = flag * 2 + R.jv_g2_equal(v, p2[y].b, q.b); break; }
             case 26: { GTv q; memcpy(q.b, t[y].b, sizeof(q.b)); q.b[(sc[0] % 12) * 48 + sc[1] % 47] ^= (uint8_t) (1u << (sc[2] & 7)); flag = R.jv_gt_equal(v, t[y].b, q.b); break; }
+            case 27: { // the C++-only wnaf.hpp API: a caller-built table multiplied by the op's scalar (all-zero, all-ones, 2^j-1 and random scalars: the recoding's
+                       // add-back at the top of the working copy); window 4 or 5, either group, with or without explicit recoding
+                int grp = (int) (x & 1) + 1, wn = 4 + (int) ((x >> 1) & 1); Buf tbl(R.jv_wnaf_table_bytes(grp, wn));
+                if (grp == 1) { R.jv_g1affine_from_projective(v, a1, p1[y].b); R.jv_wnaf_table_build(1, wn, tbl, a1); G1v o; R.jv_wnaf_table_mul(1, wn, o.b, tbl, sc.data(), (int) (x >> 2) & 1); out = w.c1(o); }
+                else { R.jv_g2affine_from_projective(v, a2, p2[y].b); R.jv_wnaf_table_build(2, wn, tbl, a2); G2v o; R.jv_wnaf_table_mul(2, wn, o.b, tbl, sc.data(), (int) (x >> 2) & 1); out = w.c2(o); }
+                break; }
             case 23: { uint8_t ob[576]; R.jv_gt_marshal(v, ob, t[y].b); R.jv_gt_unmarshal(v, t[x].b, ob); out = w.ct(t[x]); break; }
             }
             env.logf("G %d %zu %zu flag=%d out=%s", k, x, y, flag, sha_hex(out.data(), out.size(), 10).c_str());
